@@ -34,6 +34,13 @@ RULE = (
     "rendered, then the remaining user features (always including the feature through which a must-differ pair differs; "
     "declared on the type of the structure or on a supertype; one or two stages) are created with create_feature on the "
     "same object, then the pair is built and compared; the renderings in between are checked by the oracle as well. "
+    "Add/remove history: in about 40 % of the pairs (and in a directed stream of 8 small multi-view pairs) one or both CASes "
+    "reach their state the way user code does instead of by presetting every slot: the sofa of an indexed structure is left "
+    "to Cas.add, structures are first added to and removed from other views (detours) before their final add, a referenced "
+    "but unindexed annotation gets its sofa by add + remove; and the variant of a view / index / prim / ref / elem pair may be "
+    "obtained from the LIVE base CAS after its rendering (remove from the old view + add to the new one, remove, add, "
+    "setattr) instead of being built afresh.  The final state is the one of the scenario, so equal / different is decided "
+    "as before and the model is evaluated on the final state. "
     "A case is non-trivial when its variant is a content mutation or it has a mixed type or a nested array."
 )
 TRUSTED = [
@@ -65,6 +72,8 @@ ASSUMPTIONS = [
     "are not rendered (the cell is empty; the nodes are not listed structures and lists are not in the property's enumeration "
     "of what must show); content mutations never touch them, the model agrees with the implementation when they are present",
     "view names contain no '(' (sensitivity to the view is proved under this premise)",
+    "user features are not called sofa, xmiID, elements, head or tail (DESIGN section 6 end: structural names); array types "
+    "are inheritance-final (a user subtype of an array type cannot be traversed by Cas._find_all_fs at all)",
 ]
 
 T = scen.T
@@ -911,6 +920,203 @@ def late_feature_case(r):
     return {"ts": tspec, "cas": cs, "kind": kind, "var": var, "xt": None, "stages": [[[tspec[dom]["name"], fname]]]}
 
 
+# --- add/remove history: sc["hist"] = {"cas": plan | None, "var": plan | None, "live": bool}.  A plan
+# {"detours": [[label, [view index, ...]], ...]} makes the builder reach the state of the scenario the way user code does:
+# the sofa of an indexed structure is left to Cas.add, and a structure with detours is added to and removed from the given
+# views before its final add (an unindexed annotation with a sofa: add + remove in the view of its sofa at the end).
+# "live": the variant is obtained from the base CAS object after its rendering by remove / add / setattr.
+
+LIVE_KINDS = ["view", "index", "prim", "ref", "elem"]
+
+
+def _sofa_name(o):
+    s = o["slots"].get("sofa")
+    return s["sofa"] if isinstance(s, dict) and "sofa" in s else None
+
+
+def _member_views(cspec):
+    mem = {}
+    for vi, l in cspec["members"]:
+        mem.setdefault(l, []).append(vi)
+    return mem
+
+
+def side_plan(pr, cspec, must=()):
+    """Detours for about half of the indexed structures and of the unindexed ones that carry a sofa (those in `must` always)."""
+    nv = len(cspec["views"])
+    mem = _member_views(cspec)
+    det = []
+    for o in cspec["objs"]:
+        l = o["o"]
+        if (l in mem or _sofa_name(o) is not None) and (l in must or pr.random() < 0.5):
+            det.append([l, [pr.randrange(nv) for _ in range(pr.choice([1, 1, 2]))]])
+    return {"detours": det}
+
+
+def hist_plan(pr, sc):
+    kind = sc["kind"]
+    if sc.get("var") is None:                       # xmi / json: the base CAS has a history, the variant is loaded
+        return {"cas": side_plan(pr, sc["cas"]), "var": None, "live": False}
+    if kind in EQUAL_KINDS:                         # one side only: same content, different history
+        side = pr.choice(["cas", "var"])
+        return {"cas": side_plan(pr, sc["cas"]) if side == "cas" else None,
+                "var": side_plan(pr, sc["var"]) if side == "var" else None, "live": False}
+    if kind in LIVE_KINDS and pr.random() < 0.6:
+        return {"cas": side_plan(pr, sc["cas"]) if pr.random() < 0.5 else None, "var": None, "live": True}
+    sides = pr.choice([["cas"], ["var"], ["cas", "var"]])
+    return {"cas": side_plan(pr, sc["cas"]) if "cas" in sides else None,
+            "var": side_plan(pr, sc["var"]) if "var" in sides else None, "live": False}
+
+
+def _conv(v, objs, views, names):
+    if v is None:
+        return None
+    for k in ("i", "b", "s"):
+        if k in v:
+            return v[k]
+    if "f" in v:
+        return scen.unfl(v["f"])
+    if "ref" in v:
+        return objs[v["ref"]]
+    if "list" in v:
+        return [_conv(e, objs, views, names) for e in v["list"]]
+    if "sofa" in v:
+        return views[names.index(v["sofa"])].get_sofa()
+    raise ValueError(v)
+
+
+def _build_cas(cassis, ts, cspec, plan):
+    """scen.build_cas, or -- with a plan -- the same final state through a history of adds and removes (public API only)."""
+    if not plan:
+        return scen.build_cas(cassis, ts, cspec)
+    by = {o["o"]: o for o in cspec["objs"]}
+    names = [v["name"] for v in cspec["views"]]
+    mem = _member_views(cspec)
+    det = {l: vs for l, vs in plan.get("detours", []) if l in by}
+
+    def left_to_add(l):
+        s = _sofa_name(by[l])
+        if s is None:
+            return False
+        if l in mem:
+            return len(mem[l]) == 1 and names[mem[l][0]] == s
+        return l in det
+
+    pre = clone(cspec)
+    pre["members"] = []
+    for o in pre["objs"]:
+        if left_to_add(o["o"]):
+            del o["slots"]["sofa"]
+    cas, views, objs = scen.build_cas(cassis, ts, pre)
+    done = set()
+
+    def detour(l):
+        if l in done:
+            return
+        done.add(l)
+        for vj in det.get(l, []):
+            w = views[vj % len(views)]
+            w.add(objs[l])
+            w.remove(objs[l])
+
+    for vi, l in cspec["members"]:
+        detour(l)
+        views[vi].add(objs[l], keep_id=True)
+    for l in det:
+        if l in mem:
+            continue
+        s = _sofa_name(by[l])
+        if s is None and hasattr(objs[l], "sofa"):
+            continue                                # an add would give it a sofa the scenario does not have
+        detour(l)
+        if s is not None:
+            w = views[names.index(s)]
+            w.add(objs[l])
+            w.remove(objs[l])
+    return cas, views, objs
+
+
+def _apply_live(sc, views, objs):
+    """Turn the live CAS built for sc["cas"] into sc["var"]: setattr for changed slots, remove / add for changed index
+    membership (Cas.add gives the structure the sofa of the view), add + remove for a changed sofa of an unindexed one."""
+    slots, _same = _pair_diff(sc)
+    names = [v["name"] for v in sc["cas"]["views"]]
+    ma, mb = [tuple(m) for m in sc["cas"]["members"]], [tuple(m) for m in sc["var"]["members"]]
+    for l, k, _va, vb in slots:
+        if k != "sofa":
+            setattr(objs[l], k, _conv(vb, objs, views, names))
+    for vi, l in [m for m in ma if m not in mb]:
+        views[vi].remove(objs[l])
+    added = [m for m in mb if m not in ma]
+    for vi, l in added:
+        views[vi].add(objs[l], keep_id=True)
+    for l, k, _va, vb in slots:
+        if k == "sofa" and not (vb is not None and (names.index(vb["sofa"]), l) in added):
+            if vb is None:
+                objs[l].sofa = None
+            else:
+                w = views[names.index(vb["sofa"])]
+                w.add(objs[l])
+                w.remove(objs[l])
+
+
+def _live_ok(sc):
+    h = sc.get("hist") or {}
+    if not h.get("live") or sc.get("var") is None or sc["kind"] not in LIVE_KINDS:
+        return False
+    d = _pair_diff(sc)
+    return d is not None and not any(k in ("begin", "end") for _l, k, _a, _b in d[0])
+
+
+def moved_case(pr, k):
+    """The everyday shape of the history stream: Tok annotations (and a Meta <: AnnotationBase) created WITHOUT a sofa and
+    added to the views of a 2-3 view CAS.  Even k: one structure is moved to another view on the live CAS (remove + add):
+    the texts must differ.  Odd k: the same content, but one structure reaches its view via a detour through another
+    view: the texts must be equal."""
+    tspec = [{"name": "a.b.Tok", "super": scen.ANNOTATION,
+              "feats": [{"name": "pos", "range": T + "String", "elem": None, "multi": None}]},
+             {"name": "a.b.Meta", "super": T + "AnnotationBase",
+              "feats": [{"name": "n", "range": T + "Integer", "elem": None, "multi": None},
+                        {"name": "tok", "range": "a.b.Tok", "elem": None, "multi": None}]}]
+    nv = pr.choice([2, 2, 3])
+    views = [{"name": "_InitialView" if i == 0 else "view%d" % i,
+              "text": [ord(c) for c in ["Die Katze schlaeft", "The cat is asleep", "Le chat dort"][i]], "mime": None}
+             for i in range(nv)]
+    objs, members = [], []
+    spans = pr.sample([(0, 3), (4, 9), (4, 7), (10, 12), (0, 0), (2, 9)], pr.choice([2, 3]))
+    for j, (b, e) in enumerate(spans):
+        vi = pr.randrange(nv)
+        objs.append({"o": j + 1, "type": "a.b.Tok", "id": 20 + j,
+                     "slots": {"begin": {"i": b}, "end": {"i": e}, "pos": {"s": pr.choice(["DET", "NN", "V"])},
+                               "sofa": {"sofa": views[vi]["name"]}}})
+        members.append([vi, j + 1])
+    with_meta = pr.random() < 0.5
+    if with_meta:
+        vi = pr.randrange(nv)
+        objs.append({"o": 9, "type": "a.b.Meta", "id": 40, "slots": {"n": {"i": pr.randint(0, 5)}, "tok": {"ref": 1},
+                                                                      "sofa": {"sofa": views[vi]["name"]}}})
+        members.append([vi, 9])
+    pr.shuffle(members)
+    cs = {"views": views, "objs": objs, "members": members}
+    var = clone(cs)
+    lab = 9 if with_meta and pr.random() < 0.3 else pr.choice([o["o"] for o in objs if o["type"] == "a.b.Tok"])
+    cur = next(vi for vi, l in members if l == lab)
+    other = pr.choice([i for i in range(nv) if i != cur])
+    if k % 2 == 0:
+        by_l(var["objs"], lab)["slots"]["sofa"] = {"sofa": views[other]["name"]}
+        for m in var["members"]:
+            if m[1] == lab:
+                m[0] = other
+        hist = {"cas": {"detours": []} if pr.random() < 0.7 else None, "var": None, "live": True}
+        kind = "view"
+    else:
+        plan = {"detours": [[lab, [other] + ([pr.randrange(nv)] if pr.random() < 0.3 else [])]]}
+        side = pr.choice(["cas", "var"])
+        hist = {"cas": plan if side == "cas" else None, "var": plan if side == "var" else None, "live": False}
+        kind = "perm"
+    return {"ts": tspec, "cas": cs, "kind": kind, "var": var, "xt": None, "hist": hist}
+
+
 def generate(rng, tier):
     import cassis
     import random
@@ -933,6 +1139,10 @@ def generate(rng, tier):
         yield late_feature_case(pr)
     for k in range(2 if tier != "search" else 0):
         yield array_chain(pr)
+    # small multi-view pairs whose structures get their sofa from Cas.add and are moved between views (private generator too)
+    hr = random.Random("moved:" + ",".join(map(str, rng.getstate()[1][:8])))
+    for k in range(8):
+        yield moved_case(hr, k)
     while made < n and attempts < 60 * n:
         attempts += 1
         tspec = gen_ts(rng)
@@ -969,6 +1179,11 @@ def generate(rng, tier):
             st = stage_plan(random.Random(f"stage:{made}:{kind}:{len(cs['objs'])}"), sc, schema)
             if st:
                 sc["stages"] = st
+        # about 40 % of the pairs: one or both CASes are built through an add/remove history, or the variant is made from
+        # the live base CAS (again decided by a private generator derived from the case: the stream of cases is unchanged)
+        hp = random.Random(f"hist:{made}:{kind}:{len(cs['objs'])}")
+        if hp.random() < 0.4:
+            sc["hist"] = hist_plan(hp, sc)
         yield sc
 
 
@@ -1025,11 +1240,16 @@ def _staged_ts(cassis, sc, obs):
 def run_impl(cassis, sc):
     obs = {}
     ts = _staged_ts(cassis, sc, obs) if sc.get("stages") else _schema(cassis, sc["ts"])[0]
-    cas, views, objs = scen.build_cas(cassis, ts, sc["cas"])
+    hist = sc.get("hist") or {}
+    cas, views, objs = _build_cas(cassis, ts, sc["cas"], hist.get("cas"))
     obs.update({"base": _texts(cassis, cas, sc.get("xt")), "base_members": _members(views, objs)})
     kind = sc["kind"]
     if sc.get("var") is not None:
-        cas2, views2, objs2 = scen.build_cas(cassis, ts, sc["var"])
+        if _live_ok(sc):
+            _apply_live(sc, views, objs)
+            cas2, views2, objs2 = cas, views, objs
+        else:
+            cas2, views2, objs2 = _build_cas(cassis, ts, sc["var"], hist.get("var"))
         obs["var"] = _texts(cassis, cas2, sc.get("xt"))
         obs["var_members"] = _members(views2, objs2)
     elif kind in ("xmi", "json"):
@@ -1124,10 +1344,15 @@ def oracle(cassis, sc, obs):
         return None
     for name in obs["base"]:
         a, b = obs["base"][name]["text"], obs["var"][name]["text"]
+        how = ""
+        if sc.get("hist"):
+            h = sc["hist"]
+            how = " [add/remove history: " + ("variant made from the live base CAS" if _live_ok(sc) else "built with detours: "
+                                              + "/".join(x for x in ("cas", "var") if h.get(x))) + "]"
         if kind in EQUAL_KINDS and a != b:
-            return f"equal:{kind}: texts differ ({name}) although the variant differs only by {kind}"
+            return f"equal:{kind}: texts differ ({name}) although the variant differs only by {kind}" + how
         if kind in DIFF_KINDS + OPEN_KINDS and name in ("default", "nocov") and a == b:
-            return f"different:{kind}: texts are equal ({name}) although the variant differs in content ({kind})"
+            return f"different:{kind}: texts are equal ({name}) although the variant differs in content ({kind})" + how
     return None
 
 
@@ -1328,6 +1553,10 @@ def distribution(scenarios, observations):
             "sofa_less_annotations": sum(1 for s in scenarios if any(
                 "begin" in o["slots"] and "sofa" not in o["slots"] for o in s["cas"]["objs"])),
             "staged_type_system": sum(1 for s in scenarios if s.get("stages")),
+            "add_remove_history": sum(1 for s in scenarios if s.get("hist")),
+            "variant_from_live_cas": sum(1 for s in scenarios if _live_ok(s)),
+            "history_detours": sum(len(vs) for s in scenarios for x in ("cas", "var")
+                                   for _l, vs in ((s.get("hist") or {}).get(x) or {}).get("detours", [])),
             "staged_must_differ_pairs": sum(1 for s in scenarios if s.get("stages") and s["kind"] in DIFF_KINDS),
             "roundtrip_variant_unavailable": sum(1 for o in observations if o and "roundtrip_error" in o)}
 
